@@ -270,9 +270,14 @@ func (in *Interp) noLeak(label string, out Value, secrets []Value) {
 	}
 	// implicit flows: the path condition of the primed run must follow
 	pcSame := ts.True()
+	domain := ts.True() // constraints on the secrets themselves (harness assumptions): the other run's secrets satisfy them too
 	for _, c := range in.pc {
 		cp := ts.Subst(c, m, memo)
 		if cp == c {
+			continue
+		}
+		if onlySecrets(c, m, map[*Term]bool{}) {
+			domain = ts.And(domain, cp)
 			continue
 		}
 		in.declassified(c, m, memo, decl, seen)
@@ -291,10 +296,37 @@ func (in *Interp) noLeak(label string, out Value, secrets []Value) {
 		keys = append(keys, d)
 	}
 	sort.Slice(keys, func(i, j int) bool { return keys[i].id < keys[j].id })
-	hyp := ts.True()
+	hyp := domain
 	for _, d := range keys {
 		hyp = ts.And(hyp, ts.Eq(d, decl[d]))
 	}
 	in.assert(label, ts.Implies(hyp, same))
 	in.assert(label+":control", ts.Implies(hyp, pcSame))
+}
+
+// onlySecrets: every free symbol / library application below t is one of the secret terms (a constraint on the secrets' domain)
+func onlySecrets(t *Term, m map[*Term]*Term, seen map[*Term]bool) bool {
+	if _, ok := m[t]; ok {
+		return true
+	}
+	if seen[t] {
+		return true
+	}
+	seen[t] = true
+	switch t.op {
+	case OConst:
+		return true
+	case OSym:
+		return false
+	case OApp:
+		if t.s != "len!" {
+			return false
+		}
+	}
+	for _, a := range t.args {
+		if !onlySecrets(a, m, seen) {
+			return false
+		}
+	}
+	return true
 }
